@@ -112,64 +112,95 @@ pub fn run(lines: &[String], end: End, check_go: bool) -> Result<SessionResult, 
     let mut e = Engine::start(None, &[])?;
     let mut model = Model::new();
     let mut res = SessionResult::default();
-    let mut pending_go: Option<(String, Pos)> = None; // unbounded go waiting for stop
+    // every go that has been sent: (line, root position, time sent, time allowed for the answer)
+    let mut sent: Vec<(String, Pos, std::time::Instant)> = vec![];
     let slack = Duration::from_millis(5000);
+    // waits until every go sent so far has its bestmove (the k-th bestmove answers the k-th go)
+    fn settle_gos(e: &mut Engine, owed: usize, limit: Duration) -> bool {
+        let began = std::time::Instant::now();
+        loop {
+            if e.count_lines("bestmove") >= owed {
+                return true;
+            }
+            if began.elapsed() > limit {
+                return false;
+            }
+            e.settle(Duration::from_millis(2));
+        }
+    }
     for line in lines {
-        if !e.send(line) {
+        // `stop!` = stop sent without waiting for the bestmove (the next command follows at once)
+        let wire = if line == "stop!" { "stop" } else { line.as_str() };
+        if !e.send(wire) {
             res.complaints.push(format!("engine no longer accepts input at '{line}'"));
             break;
         }
         let first = line.split_whitespace().next().unwrap_or("");
         match first {
             "isready" => {
-                if e.wait_line(|l| l == "readyok", slack).is_none() {
-                    res.complaints.push(format!("no readyok within 5 s after 'isready' (session {:?})", lines));
+                let want = lines.iter().take_while(|l| !std::ptr::eq(*l, line)).filter(|l| *l == "isready").count() + 1;
+                let began = std::time::Instant::now();
+                while e.count_lines("readyok") < want {
+                    if began.elapsed() > slack {
+                        res.complaints.push(format!("no readyok within 5 s after 'isready' (session {:?})", lines));
+                        break;
+                    }
+                    e.settle(Duration::from_millis(1));
+                }
+                if e.count_lines("readyok") < want {
                     break;
                 }
             }
             "go" if check_go => {
                 let root = model.pos.clone();
+                sent.push((line.clone(), root.clone(), std::time::Instant::now()));
                 if go_bounded(line) {
                     let allowed = go_allowed_ms(line, root.white).map_or(Duration::from_secs(10), |ms| Duration::from_millis(ms as u64) + slack);
-                    let mark = e.out.len();
-                    let got = e.wait_line(|l| l.starts_with("bestmove"), allowed);
-                    let waited = got.as_ref().map_or(allowed.as_millis(), |(_, d)| d.as_millis());
-                    e.settle(Duration::from_millis(15));
-                    let output: Vec<String> = e.out[mark..].iter().map(|(_, l)| l.clone()).collect();
-                    res.gos.push(GoResult {
-                        line: line.clone(),
-                        bestmoves: output.iter().filter(|l| l.starts_with("bestmove")).cloned().collect(),
-                        waited_ms: waited,
-                        output,
-                        legal: super::searchrun::legal_uci(&root),
-                        root,
-                    });
+                    settle_gos(&mut e, sent.len(), allowed);
                 } else {
-                    pending_go = Some((line.clone(), root));
-                    // give the search thread a moment so that the stop lands mid-search
+                    // give the search thread a moment so that a following stop lands mid-search
                     e.settle(Duration::from_millis(20));
                 }
             }
             "stop" if check_go => {
-                if let Some((goline, root)) = pending_go.take() {
-                    let mark = e.out.iter().rposition(|(_, l)| l.starts_with("bestmove")).map_or(0, |p| p + 1);
-                    let got = e.wait_line(|l| l.starts_with("bestmove"), slack);
-                    let waited = got.as_ref().map_or(slack.as_millis(), |(_, d)| d.as_millis());
-                    e.settle(Duration::from_millis(15));
-                    let output: Vec<String> = e.out[mark..].iter().map(|(_, l)| l.clone()).collect();
-                    res.gos.push(GoResult {
-                        line: format!("{goline} ... stop"),
-                        bestmoves: output.iter().filter(|l| l.starts_with("bestmove")).cloned().collect(),
-                        waited_ms: waited,
-                        output,
-                        legal: super::searchrun::legal_uci(&root),
-                        root,
-                    });
-                }
+                settle_gos(&mut e, sent.len(), slack);
             }
             _ => {}
         }
-        model.apply(line);
+        if first != "stop!" {
+            model.apply(line);
+        }
+    }
+    if check_go {
+        // anything still owed gets the allowance once more, then the answers are paired in order
+        settle_gos(&mut e, sent.len(), slack);
+        e.settle(Duration::from_millis(15));
+        let out = e.out.clone();
+        let best: Vec<(std::time::Instant, String)> = out.iter().filter(|(_, l)| l.starts_with("bestmove")).cloned().collect();
+        for (k, (goline, root, at)) in sent.iter().enumerate() {
+            // output between the previous bestmove and this go's bestmove
+            let upto = best.get(k).map(|(t, _)| *t);
+            let from = if k == 0 { None } else { best.get(k - 1).map(|(t, _)| *t) };
+            let output: Vec<String> = out
+                .iter()
+                .filter(|(t, _)| from.is_none_or(|f| *t > f) && upto.is_none_or(|u| *t <= u))
+                .map(|(_, l)| l.clone())
+                .filter(|l| l.starts_with("info") || l.starts_with("bestmove"))
+                .collect();
+            let mut bm: Vec<String> = best.get(k).map(|(_, l)| vec![l.clone()]).unwrap_or_default();
+            if k + 1 == sent.len() && best.len() > sent.len() {
+                // surplus answers are charged to the last go
+                bm.extend(best[sent.len()..].iter().map(|(_, l)| l.clone()));
+            }
+            res.gos.push(GoResult {
+                line: goline.clone(),
+                bestmoves: bm,
+                waited_ms: upto.map_or(slack.as_millis(), |u| u.saturating_duration_since(*at).as_millis()),
+                output,
+                legal: super::searchrun::legal_uci(root),
+                root: root.clone(),
+            });
+        }
     }
     match end {
         End::Quit => {
@@ -196,6 +227,11 @@ pub fn run(lines: &[String], end: End, check_go: bool) -> Result<SessionResult, 
         if check_go {
             // remembered for the go verdicts (a panicking search thread sends no bestmove)
             res.complaints.push(format!("panic on stderr: {p}"));
+        }
+    }
+    if check_go {
+        if let Some(r) = e.err.iter().find(|l| l.contains("Failed to execute command")) {
+            res.complaints.push(format!("engine reported: {r}"));
         }
     }
     Ok(res)
